@@ -435,6 +435,46 @@ impl ctap1::Authenticator for Mock1 {
     }
 }
 
+/// An authenticator that overrides `version()`: the Version request must carry ITS six bytes (the `version`
+/// associated function is the handler of the Version command).
+pub struct Mock1V(Mock1);
+static mut VERSION_OVERRIDE: [u8; 6] = [0; 6];
+impl ctap1::Authenticator for Mock1V {
+    fn register(&mut self, request: &ctap1::register::Request<'_>) -> ctap1::Result<ctap1::register::Response> {
+        self.0.register(request)
+    }
+    fn authenticate(&mut self, request: &ctap1::authenticate::Request<'_>) -> ctap1::Result<ctap1::authenticate::Response> {
+        self.0.authenticate(request)
+    }
+    fn version() -> [u8; 6] {
+        unsafe { VERSION_OVERRIDE }
+    }
+}
+
+#[kani::proof]
+#[kani::unwind(8)]
+pub fn c10_k_ctap1_version_overridden() {
+    use ctap1::Authenticator;
+    let v: [u8; 6] = kani::any();
+    unsafe { VERSION_OVERRIDE = v };
+    let mut m = Mock1V(Mock1 { reg: 0, auth: 0, seen: 0, fail: kani::any(), err_sw: kani::any(), tag: kani::any() });
+    let entry: bool = kani::any();
+    let r = if entry {
+        m.call_ctap1(&ctap1::Request::Version)
+    } else {
+        <Mock1V as Rpc<ctap1::Error, ctap1::Request<'_>, ctap1::Response>>::call(&mut m, &ctap1::Request::Version)
+    };
+    assert!(m.0.reg == 0 && m.0.auth == 0, "C10: Version called another handler");
+    match r {
+        Ok(ctap1::Response::Version(got)) => {
+            let k: usize = kani::any();
+            kani::assume(k < 6);
+            assert!(got[k] == v[k], "C10: the Version response does not carry the authenticator's own version()");
+        }
+        _ => panic!("C10: Version cannot fail"),
+    }
+}
+
 /// CTAP1 Version: cannot fail, calls no handler, carries the six bytes "U2F_V2" of the default `version()`.
 #[kani::proof]
 #[kani::unwind(8)]
